@@ -1730,7 +1730,7 @@ func rbJudge(c *core.Ctx, lines []rbLine) {
 // ---- behaviours of S3GwBasic ("plain") over two gateway processes --------------
 
 func c01Behaviours(c *core.Ctx, envs map[string]*rbEnv, order []string) {
-	mc, err := tlc.Run(c.Scratch, tlc.Opts{Module: "S3GwBasic", Workers: 4, Timeout: c.PickDur(3, 8),
+	mc, err := tlc.Run(c.Scratch, tlc.Opts{Module: "S3GwBasic", Workers: 4, MemQueue: true, Timeout: c.PickDur(3, 8),
 		CfgText: basicCfg("SpecMC", "plain", false, 0, `{"k1", "k2"}`, `{"A", "B"}`, "INVARIANT TypeOK\nVIEW View\n")})
 	if err != nil || !mc.OK {
 		c.Inconclusive("S3GwBasic exhaustive check failed (spec bug): %v %v", err, mc.MustOK())
